@@ -1,13 +1,14 @@
 import PrysmVerif.Lemmas.C15Grid
 import Mathlib.Analysis.SpecialFunctions.Trigonometric.Inverse
 import Mathlib.Analysis.SpecialFunctions.Trigonometric.Bounds
+import Mathlib.Analysis.SpecialFunctions.Pow.Real
 import Mathlib.Tactic.FieldSimp
 import Mathlib.Tactic.Linarith
 /-!
 # C15 — the diffraction-limited MTF of a circular pupil over ℝ (helper lemmas)
 
 `(2/π)(arccos ν − ν √(1−ν²))` with the real `Real.arccos`, `Real.sqrt`, `π`: 1 at ν = 0, 0 at ν = 1, inside `[0, 1]` on
-`[0, 1]` (the upper bound for every ν ≥ 0).
+`[0, 1]` (the upper bound for every ν ≥ 0), and antitone on `[0, 1]`.
 -/
 set_option linter.unusedTactic false
 set_option linter.unreachableTactic false
@@ -79,4 +80,47 @@ theorem difflimNu_cutoff (f w F : ℝ) (h : 1 ≤ |f / (1 / (w / 1000 * F))|) : 
   · rfl
   · exact le_antisymm (not_lt.1 h2) h
 
+
+/-- the core never increases on `[0, 1]`: with `x = cos θ` it is `(2/π)(θ − sin θ cos θ)`, and
+`sin a cos a − sin b cos b = sin (a−b) cos (a+b) ≤ a − b` -/
+theorem coreR_antitone {x y : ℝ} (hx : 0 ≤ x) (hxy : x ≤ y) (hy : y ≤ 1) : coreR y ≤ coreR x := by
+  have hpi : 0 < Real.pi := Real.pi_pos
+  set a := Real.arccos x with ha
+  set b := Real.arccos y with hb
+  have hba : b ≤ a := Real.arccos_le_arccos hxy
+  have hb0 : 0 ≤ b := Real.arccos_nonneg y
+  have haπ : a ≤ Real.pi := Real.arccos_le_pi x
+  have hcx : Real.cos a = x := Real.cos_arccos (by linarith) (by linarith)
+  have hcy : Real.cos b = y := Real.cos_arccos (by linarith) hy
+  have hsx : Real.sin a = Real.sqrt (1 - x * x) := by rw [ha, Real.sin_arccos, sq]
+  have hsy : Real.sin b = Real.sqrt (1 - y * y) := by rw [hb, Real.sin_arccos, sq]
+  have e1 := Real.sin_sq_add_cos_sq a
+  have e2 := Real.sin_sq_add_cos_sq b
+  have key : Real.sin a * Real.cos a - Real.sin b * Real.cos b = Real.sin (a - b) * Real.cos (a + b) := by
+    rw [Real.sin_sub, Real.cos_add]
+    linear_combination (-(Real.sin a * Real.cos a)) * e2 + (Real.sin b * Real.cos b) * e1
+  have hs0 : 0 ≤ Real.sin (a - b) := Real.sin_nonneg_of_nonneg_of_le_pi (by linarith) (by linarith)
+  have hsle : Real.sin (a - b) ≤ a - b := Real.sin_le (by linarith)
+  have hprod : Real.sin (a - b) * Real.cos (a + b) ≤ a - b := by
+    calc Real.sin (a - b) * Real.cos (a + b) ≤ Real.sin (a - b) * 1 :=
+          mul_le_mul_of_nonneg_left (Real.cos_le_one _) hs0
+      _ ≤ a - b := by linarith
+  have hmain : b - y * Real.sqrt (1 - y * y) ≤ a - x * Real.sqrt (1 - x * x) := by
+    rw [← hsx, ← hsy, ← hcx, ← hcy]
+    nlinarith [key, hprod]
+  unfold coreR
+  exact mul_le_mul_of_nonneg_left hmain (by positivity)
+
+/-- the clamped normalised frequency never decreases with `|f|` -/
+theorem difflimNu_mono (f₁ f₂ w F : ℝ) (h : |f₁| ≤ |f₂|) :
+    difflimNu (fun x : ℝ => |x|) f₁ w F ≤ difflimNu (fun x : ℝ => |x|) f₂ w F := by
+  simp only [difflimNu, Num.ofInt]
+  push_cast
+  have hd : |f₁ / (1 / (w / 1000 * F))| ≤ |f₂ / (1 / (w / 1000 * F))| := by
+    rw [abs_div f₁, abs_div f₂]; exact div_le_div_of_nonneg_right h (abs_nonneg _)
+  split_ifs with h1 h2 h2
+  · exact le_refl _
+  · exact absurd (lt_of_lt_of_le h1 hd) h2
+  · exact le_of_not_gt h1
+  · exact hd
 end C15L
